@@ -642,6 +642,10 @@ func (m *Machine) callSSA(caller *frame, pos token.Pos, fn *ssa.Function, args [
 			m.intrinsicHits[name]++
 			return ext(m, fr, args)
 		}
+		if isSovFunc(fn) {
+			m.intrinsicHits["<pkg>.sov*"]++
+			return sovIntrinsic(m, fr, args)
+		}
 		if fn.Blocks == nil {
 			panic(pathEnd{kind: "unsupported", msg: "no Go body for " + name + " (called at " + m.pos(pos) + ")"})
 		}
